@@ -130,6 +130,29 @@ def Browser.onDatagram (c : Cache) (b : Browser) (now : Ms) (recs : List Rec) : 
     let b1 := Browser.updateRecords lower possible call.2 now b call.1
     pure { cache := out.cache, browser := (Browser.complete b1).1, callbacks := (Browser.complete b1).2 }
 
+/-- what the creation of a browser (`_async_start` → `async_add_listener(browser, questions)`) does -/
+structure CreateOut where
+  /-- the cache after the purge that precedes the registration -/
+  cache : Cache
+  /-- the purged records: reported as `(r, r)`, then `complete(False)`, to the listeners registered before — if there are any -/
+  purged : List Rec
+  browser : Browser
+  /-- the new browser's callbacks from the initial replay -/
+  callbacks : List Callback
+
+/-- `async_add_listener(browser, questions)`.  `purgesFirst` (generated leaf `add_listener_purges_first`; true since the D23
+repair): the expired records are purged, with notifications to the listeners already registered, *before* the browser is added, at
+the instant `tPurge` read there.  Then the cache is replayed to the browser at the instant `tReplay` that
+`_async_update_matching_records` reads (a second reading of the clock). -/
+def Browser.createWith (purgesFirst : Bool) (c : Cache) (tPurge tReplay : Ms) (types : List String) : Except PyExc CreateOut := do
+  let out ← if purgesFirst then expire (Cache.ops lower) c (Gen.Cache.add_listener_purge_expire_now tPurge) else pure (c, [])
+  let s := Browser.start lower possible out.1 tReplay types
+  pure { cache := out.1, purged := out.2, browser := s.1, callbacks := s.2 }
+
+/-- the code as it is -/
+def Browser.create (c : Cache) (tPurge tReplay : Ms) (types : List String) : Except PyExc CreateOut :=
+  Browser.createWith lower possible Gen.Cache.add_listener_purges_first c tPurge tReplay types
+
 /-- the periodic purge: `_async_cache_cleanup` reports every purged record as `(record, record)` -/
 def Browser.onPurge (c : Cache) (b : Browser) (now : Ms) : Except PyExc BrowserOut := do
   -- `now` is read once: the cache is swept with the instant the listeners are told (leaves `purge_expire_now`, `purge_updates_now`)
